@@ -313,11 +313,18 @@ func c03(r *core.Run) {
 						inc = true
 					}
 				}
+				// ... or set through a method of the record (prov.SetBurnCount(burned + 1))
+				for _, ma := range fieldAssignsThroughMethods(p, al, "BurnedContracts") {
+					if strings.Contains(termInCall(p, ma.Val, ma.Callee, ma.Call), "+1)") {
+						inc = true
+					}
+				}
 			}
 			r.Check(inc, "C03/R7", core.FnName(fn)+":burn-increments-by-one", p.InstrPos(call), "burn count := parsed(old)+1", "the burn counter is not incremented by exactly one")
 		}
 	}
 	r.Floor("C03/R7", nBurn, 1, "burn sites")
+	r.Floor("C03/R7", burnTargetIsProver(r, "C03/R7", funcs, routine), 1, "burned provider lookups")
 
 	// ---- R6 decode targets are fresh per callback invocation
 	staleDecodeTargets(r, "C03/R6", funcs)
@@ -325,7 +332,14 @@ func c03(r *core.Run) {
 	// ---- R3 / R4
 	insts := p.BankInstances(entry)
 	var pull, pay []core.BankInstance
+	seenSite := map[ssa.Instruction]bool{}
 	for _, bi := range insts {
+		// one site reached along two call chains (a callback is reached from the function that passes it and from the
+		// iterator that calls it) is one site
+		if seenSite[bi.Op.Instr] {
+			continue
+		}
+		seenSite[bi.Op.Instr] = true
 		switch bi.Op.Method {
 		case "SendCoinsFromAccountToModule":
 			pull = append(pull, bi)
@@ -405,7 +419,8 @@ func c03(r *core.Run) {
 		roundsDown(r, "C03/R9", "rewards:payout-rounds-down", bo.Args[2], p.InstrPos(bo.Instr))
 		r.Check(okTracker && okTotal, "C03/R3", "rewards:payout-amount", p.InstrPos(bo.Instr), "amount ⊵ {tracker entry, total size}", "the payout does not depend on the prover's counted size and the network total")
 		// R4
-		pp := p.ProvAt(pull[0].Op.Args[2], "", pull[0].Op.Instr)
+		// (both sides read in the same context: a callback's parameter resolves to what its iterator hands in)
+		pp := res(p.ProvAt(pull[0].Op.Args[2], "", pull[0].Op.Instr))
 		have := map[string]bool{}
 		for _, a := range ap.DataAtoms() {
 			have[a.Key()] = true
@@ -471,6 +486,9 @@ func iterationListIsFileList(p *core.Program, sl ssa.Value, file ssa.Value) (boo
 		}
 		return true, "iterates a fresh copy: make(len(file.Proofs)) + copy(file.Proofs)"
 	case *ssa.Call:
+		if name := core.CalleeFullName(x); (strings.HasPrefix(name, "slices.Clone") || strings.HasSuffix(name, "/slices.Clone") || strings.Contains(name, "slices.Clone[")) && len(x.Call.Args) == 1 && isProofsOf(x.Call.Args[0]) {
+			return true, "iterates slices.Clone(file.Proofs)"
+		}
 		if b, ok := x.Call.Value.(*ssa.Builtin); ok && b.Name() == "append" && len(x.Call.Args) == 2 && isProofsOf(x.Call.Args[1]) {
 			if c, ok := x.Call.Args[0].(*ssa.Const); ok && c.Value == nil {
 				return true, "iterates append(nil, file.Proofs...)"
@@ -592,4 +610,48 @@ func perProofKeysFromFileList(r *core.Run, rule string, routine *ssa.Function) {
 		})
 	}
 	r.Floor(rule, nCall, 1, "per-proof routine call sites")
+}
+
+// burnTargetIsProver: the provider record whose burn counter is raised on the reward path is loaded under the prover
+// named by the per-proof key (the routine's key parameter, or the Prover field of the proof record loaded for it) —
+// never under another field of that record (its Owner is the file's owner, who may be an honest provider itself).
+func burnTargetIsProver(r *core.Run, rule string, funcs []*ssa.Function, routine *ssa.Function) int {
+	p := r.Prog
+	n := 0
+	if routine == nil {
+		return 0
+	}
+	for _, fn := range funcs {
+		for _, e := range p.Effects(fn) {
+			call, ok := e.Instr.(ssa.CallInstruction)
+			if !ok {
+				continue
+			}
+			if cal, _ := directOpCallee(p, call, "Set", stProviders); cal == nil {
+				continue
+			}
+			args := dataArgs(call)
+			rec := args[len(args)-1]
+			for _, a := range p.ProvAt(rec, ".BurnedContracts", call).DataAtoms() {
+				if !(a.Kind == "store" && a.Name == stProviders) || a.Call == nil {
+					continue
+				}
+				for _, ka := range dataArgs(a.Call) {
+					kp := p.ResolveToEntry(p.ProvAt(ka, "", a.Call), routine)
+					atoms := kp.DataAtoms()
+					okT := len(atoms) > 0
+					for _, x := range atoms {
+						isKeyParam := x.Kind == "param" && x.Fn == routine && x.Idx < len(routine.Params) && routine.Params[x.Idx].Type().String() == "string"
+						isProver := x.Kind == "store" && x.Name == stProof && x.Path == ".Prover"
+						if !isKeyParam && !isProver {
+							okT = false
+						}
+					}
+					n++
+					r.Check(okT, rule, core.FnName(fn)+":burn-target-is-the-prover", p.InstrPos(a.Call), "the burned provider record is loaded under the prover of the per-proof key", "the provider whose burn counter is raised is not the prover that missed its window: the record is loaded under "+kp.String()+" (the file owner, say — an honest provider that owns the file is burned and the lazy prover is not)")
+				}
+			}
+		}
+	}
+	return n
 }
